@@ -311,6 +311,26 @@ Example C05_ex_nts_tampered :
   = LFail 1 ENoUid.
 Proof. vm_compute. reflexivity. Qed.
 
+(* every call makes at least one exchange (n = 3 with interleaved mode, else 1) ... *)
+Theorem C05_call_makes_a_try : forall c, (1 <= num_exchanges c)%nat /\ forall (e : xenv) envs, firstn (num_exchanges c) (e :: envs) <> [].
+Proof.
+  intro c. unfold num_exchanges. split; [destruct (c_imode c); auto|].
+  intros e envs. destruct (c_imode c); simpl; discriminate.
+Qed.
+Print Assumptions C05_call_makes_a_try.
+
+(* ... which is what the hypothesis [envs <> []] of the call-level theorems stands for: a try loop that
+   makes no exchange (e.g. one that is left early when the context is already done) returns the zero
+   values of its results - a measurement of offset 0 with a nil error, based on no datagram.  The case
+   kind client.ctxdone drives the real entry points with such contexts; the oracle
+   C05_call_needs_datagram rejects a reported measurement without an accepted datagram *)
+Theorem C05_no_try_is_phantom : forall open c st i nerr,
+  call_loop open c st [] i nerr None = (st, COffset 0 0, []) /\
+  C05_call_needs_datagram true 0 = false /\
+  forall acc, C05_call_needs_datagram false acc = true.
+Proof. intros. split; [reflexivity|]. split; [reflexivity|]. intro acc. reflexivity. Qed.
+Print Assumptions C05_no_try_is_phantom.
+
 (* MeasureClockOffsetSCION (one client): an offset only from a genuine datagram, an error otherwise *)
 Theorem C05_scion_call_offset_genuine : forall open c st envs st' cr lrs off ts,
   envs <> [] ->
